@@ -450,6 +450,7 @@ def run(ck, progs):
     run_control(ck, ck.work, "R05e", "c05.c", r05e, "r05e")
     run_control(ck, ck.work, "R05i", "c05.c", r05i, "r05i")
     run_control(ck, ck.work, "R05d", "c05.c", r05d_calls, "r05d")
+    run_control(ck, ck.work, "R05t", "c05.c", r05t, "r05t")
     return ("Repository-specific static rules over the resolved AST/CFG of every library and CLI unit: "
             "byte-domain evaluation of every char-derived index into a small table under its dominating guards; "
             "must-assign on every path of the residue-code loop; (further rules listed under 'rules').")
@@ -1928,4 +1929,4 @@ def r05t(ck, prog):
                                      "va_copy in between: the second callee reads indeterminate arguments (wild %%s pointer)" % (
                                          F.name, name, u2.callee, u.callee, u.line), prog.config)
                         break
-    ck.floor("R05t", n, 6, "va_list variables")
+    ck.floor("R05t", n, 3 if "controls" in prog.repo else 6, "va_list variables")
